@@ -468,6 +468,34 @@ func rulesC04(w *World, o *Out) {
 				okV = true
 			}
 		}
+		// (built with slice.Map over the estimates: the element function is the GetValue getter)
+		if mc, isMC := canon(in).(*ssa.Call); !okV && isMC && len(mc.Call.Args) == 2 {
+			if cal, okc := CalleeOf(mc.Common()); okc && strings.HasSuffix(cal.Pkg, "util/slice") && strings.HasPrefix(cal.Name, "Map") {
+				var fn *ssa.Function
+				switch x := mc.Call.Args[1].(type) {
+				case *ssa.MakeClosure:
+					fn, _ = x.Fn.(*ssa.Function)
+				case *ssa.Function:
+					fn = x
+				}
+				if fn != nil && len(fn.Params) == 1 {
+					all := true
+					for _, b := range fn.Blocks {
+						if r, isR := b.Instrs[len(b.Instrs)-1].(*ssa.Return); isR && len(r.Results) == 1 {
+							gv, isC := canon(r.Results[0]).(*ssa.Call)
+							if !isC || !gv.Call.IsInvoke() || gv.Call.Method.Name() != "GetValue" || canon(gv.Call.Value) != ssa.Value(fn.Params[0]) {
+								all = false
+							}
+						}
+					}
+					for a := range aps {
+						if all && strings.HasSuffix(a.Path, "[]") {
+							okV = true
+						}
+					}
+				}
+			}
+		}
 		o.Check("C04.R5", "VerifyGasEstimates|median input are the estimates' values", okV, w.Pos(s.Instr.Pos()), "elements must come from estimates[i].GetValue(); influence="+strings.Join(aps.Strings(), ","))
 	}
 	// elected estimate written once
